@@ -548,6 +548,9 @@ def main(argv):
     rlock = threading.Lock()
     playback_lock = threading.Lock()
 
+    first_only = os.environ.get("VERIF_FIRST_ONLY") == "1"  # detection runs: one reproduced violation is enough
+    stop_flag = threading.Event()
+
     def worker(wi):
         tdir = os.path.join(scratch, f"t{wi}")
         while True:
@@ -555,6 +558,11 @@ def main(argv):
                 h = q.get_nowait()
             except queue.Empty:
                 return
+            if first_only and stop_flag.is_set():
+                with rlock:
+                    results[h.name] = {"verdict": "skipped", "reason": "skipped: VERIF_FIRST_ONLY and another harness already failed",
+                                       "res": parse_kani_log(""), "wall_s": 0.0}
+                continue
             bad = [n for n in h.needs if n in guard_fail]
             if bad:
                 with rlock:
@@ -567,7 +575,13 @@ def main(argv):
             rc, to, dt = run_cmd(kani_cmd(h, tdir, False), snap, ENV_BASE, cap, logp, h.mem_gb)
             text = open(logp, errors="replace").read()
             res = parse_kani_log(text)
-            if res["status"] == "FAILED" and not to and res["cbmc_crash"] is None and res["failed_checks"]:
+            is_open_witness = bool(h.witness) and h.witness in {e["key"] for e in kf.get("open", [])}
+            if first_only and res["status"] == "FAILED" and res["failed_checks"] and not is_open_witness:
+                already = stop_flag.is_set()
+                stop_flag.set()
+            else:
+                already = False
+            if res["status"] == "FAILED" and not to and res["cbmc_crash"] is None and res["failed_checks"] and not already:
                 logp2 = os.path.join(logdir, h.name + ".playback.log")
                 # kani-driver needs several GB (up to tens) to parse CBMC's JSON trace: one at a time, 48 GB
                 with playback_lock:
@@ -598,6 +612,8 @@ def main(argv):
     os.makedirs(os.path.join(VERIF, "replays", prop), exist_ok=True)
     for h in sel:
         r = results[h.name]
+        if r["verdict"] == "skipped":
+            continue
         if r["verdict"] == "inconclusive":
             if h.witness and h.witness in open_by_key:
                 inconclusive.append((h, "witness of open finding inconclusive: " + r["reason"]))
